@@ -22,6 +22,8 @@ let class_name = function
   | CExecBase -> "ExecutionContext"
   | CEngine -> "XSLTEngineImpl"
   | CTransformer -> "XalanTransformer"
+  | CVarStack -> "VariablesStack"
+  | CCounters -> "CountersTable"
 
 let mid_name (c, n) = class_name c ^ "::" ^ name_string n
 
